@@ -210,13 +210,18 @@ ASSUMPTIONS = (
 def obligations(tier):
   F = qualnames(IT.StateAxes.map_prefix, extract.check_consistent_aliasing,
                 AD._grad_general, AD.GradFn.__call__, AD.grad)
+  quick = tier == 'quick'
   nf = len(FILT) - 1
   e = dict(s0=I(0, 2), d0=I(0, 7), h0=B())
   return [
       Ob('state_axes_first_match', state_axes_prefix,
-         dict(nf=I(1, 3), f0=I(0, nf), f1=I(0, nf), f2=I(0, nf), a0=I(0, 3),
-              a1=I(0, 3), a2=I(0, 3), **e), split=('nf', 'f0', 's0'), timeout=600,
-         funcs=F, bounds='<=3 (filter, axis) pairs over 6 filters x 4 axis values'),
+         dict(nf=I(1, 2 if quick else 3), f0=I(0, nf), f1=I(0, nf), f2=I(0, nf),
+              a0=I(0, 3), a1=I(0, 3), a2=I(0, 3), s0=I(0, 0), d0=I(0, 7),
+              h0=I(0, 0)), split=('nf', 'f0', 'a0') if quick else ('nf', 'f0', 'a0',
+                                                                  'f1'),
+         timeout=600, funcs=F,
+         bounds='<=%d (filter, axis) pairs over 6 filters x 4 axis values, base '
+                'graph + 1 extra edge from the root' % (2 if quick else 3)),
       Ob('inconsistent_aliasing_rejected', aliasing_rejected,
          dict(second=I(0, 1), a_first=I(0, 3), a_second=I(0, 3), f_first=I(0, nf),
               **e), split=('second', 'f_first'), timeout=600, funcs=F,
